@@ -262,6 +262,30 @@ func (s *Stack) open() error {
 	return nil
 }
 
+// RawPut writes an object file behind the server's back (fs kinds only): the way a directory
+// that already holds files is served by the fs backends, or a file changed by another tool.
+// No metadata file is written.
+func (s *Stack) RawPut(bucket, key string, data []byte) error {
+	var fs afero.Fs
+	var p string
+	switch s.Kind {
+	case MultiMem:
+		fs, p = s.memFs, filepath.Join("buckets", bucket, filepath.FromSlash(key))
+	case SingleMem:
+		fs, p = s.memFs, filepath.FromSlash(key)
+	case MultiDir:
+		fs, p = afero.NewOsFs(), filepath.Join(s.dir, "root", "buckets", bucket, filepath.FromSlash(key))
+	case SingleDir:
+		fs, p = afero.NewOsFs(), filepath.Join(s.dir, "bucket", filepath.FromSlash(key))
+	default:
+		return fmt.Errorf("RawPut: %s is not a file-system backend", s.Kind)
+	}
+	if err := fs.MkdirAll(filepath.Dir(p), 0700); err != nil {
+		return err
+	}
+	return afero.WriteFile(fs, p, data, 0600)
+}
+
 // Dir returns the scratch directory ("" if none).
 func (s *Stack) Dir() string { return s.dir }
 
